@@ -4,7 +4,8 @@ from vlib import envlab as E
 from vlib import episode_oracle as O
 
 ID = "C07"
-RULE = ("Generated bar-shaped episodes (3-10 timesteps with mixed gaps, 1-3 contracts among ETF / user spot (multiplier) / user margined / ES, "
+RULE = ("Generated bar-shaped episodes (3-10 timesteps with mixed gaps, 1-3 contracts among ETF / user spot (multiplier) / user margined / ES, or (one case in four) a FutureChain (ES, NK, ZN, VX) "
+        "rolling over a last-trading date with every listed contract quoted, "
         "spreads {0, 0.1%, 2%}, +-10% moves, extra quotes inside and outside the latency window, fees, rate path, markup, latency, delay 0-2, "
         "weights with gross leverage <= 2, reward in {simple, log, pnl, LogReturn(scale, clip, risk_aversion)}). Independent replay: the book at "
         "each execution is rebuilt from the INPUT stream with the timing model; a ledger replays recorded trades and interest and must reproduce "
@@ -34,6 +35,8 @@ def run(case):
         res.tag("two-episodes-on-one-environment")
     if any(s["kind"] in ("umargin", "es") for s in case["contracts"]):
         res.tag("margined")
+    if any(s["kind"] == "chain" for s in case["contracts"]):
+        res.tag("futures-chain")
     if any(s["kind"] == "uspot" and s["mult"] != 1 for s in case["contracts"]):
         res.tag("fully-paid-multiplier!=1")
     return res
@@ -44,7 +47,11 @@ from hypothesis import strategies as st
 
 @st.composite
 def cases(draw, tier="quick"):
-    c = draw(E.episode_cases(tier))
+    if draw(st.sampled_from([False, False, False, True])):
+        c = draw(E.chain_episode_cases(tier))          # a FutureChain rolling over a last-trading date
+        c["reward"] = draw(st.sampled_from([["simple"], ["log"], ["pnl"], ["logret", 0.01, 2.0, 0.1]]))
+    else:
+        c = draw(E.episode_cases(tier))
     c["second_episode"] = draw(st.sampled_from([False, False, True]))    # a second episode on the same environment
     return c
 
